@@ -28,26 +28,50 @@ pub fn strp(s: &str) -> Result<f32> {
 
 /// Parse a string such as "32.5mm" into a value (32.5) and unit ("mm")
 pub fn split_unit(s: &str) -> Result<(f32, String)> {
-    let mut value = String::new();
-    let mut unit = String::new();
-    let mut got_value = false;
-    for ch in s.trim().chars() {
-        if ch.is_ascii_digit() || ch == '.' || ch == '-' {
-            if got_value {
-                return Err(SvgdxError::ParseError(format!(
-                    "Invalid character in numeric value: '{ch}'"
-                )));
-            }
-            value.push(ch);
-        } else {
-            if value.is_empty() {
-                return Err(SvgdxError::ParseError(format!(
-                    "'{s}' does not start with numeric value"
-                )));
-            }
-            got_value = true;
-            unit.push(ch);
+    // The value is an SVG number: optional sign, digits with optional fraction, and an
+    // optional exponent (only taken as such if digits follow: "1em" has the unit "em").
+    let s = s.trim();
+    let chars: Vec<char> = s.chars().collect();
+    let digit = |i: usize| chars.get(i).is_some_and(|c| c.is_ascii_digit());
+    let mut idx = 0;
+    if matches!(chars.first(), Some('+' | '-')) {
+        idx += 1;
+    }
+    let mut digits = 0;
+    while digit(idx) {
+        idx += 1;
+        digits += 1;
+    }
+    if chars.get(idx) == Some(&'.') {
+        idx += 1;
+        while digit(idx) {
+            idx += 1;
+            digits += 1;
         }
+    }
+    if digits == 0 {
+        return Err(SvgdxError::ParseError(format!(
+            "'{s}' does not start with numeric value"
+        )));
+    }
+    if matches!(chars.get(idx), Some('e' | 'E')) {
+        let sign = usize::from(matches!(chars.get(idx + 1), Some('+' | '-')));
+        if digit(idx + 1 + sign) {
+            idx += 1 + sign;
+            while digit(idx) {
+                idx += 1;
+            }
+        }
+    }
+    let value: String = chars[..idx].iter().collect();
+    let unit: String = chars[idx..].iter().collect();
+    if let Some(ch) = unit
+        .chars()
+        .find(|ch| ch.is_ascii_digit() || *ch == '.' || *ch == '-')
+    {
+        return Err(SvgdxError::ParseError(format!(
+            "Invalid character in numeric value: '{ch}'"
+        )));
     }
     Ok((strp(&value)?, unit))
 }
